@@ -813,3 +813,21 @@ Proof.
   destruct (C08_no_bound_on_the_length_of_a_line 100000) as (ds & Hl & Hr). exists ds. split; [|exact Hr].
   apply Nat.ltb_lt. exact Hl.
 Qed.
+
+(* ======================================================================= the writer is a function of the object *)
+(* ser_C takes the object and nothing else: what has been written before (other objects, the same object in another
+   state) has no influence on the file.  In a sequence of saves, each file is the file of its object saved alone, and
+   each reload gives what the reload of the object alone gives. *)
+Theorem C08_writer_history_independent : forall A name (ser : A -> list record) (before after : list A) o,
+  nth (length before) (map (file name ser) (before ++ o :: after)) [] = file name ser o.
+Proof. intros. rewrite map_app. cbn [map]. rewrite app_nth2; rewrite map_length; [|apply Nat.le_refl]. rewrite Nat.sub_diag. reflexivity. Qed.
+Print Assumptions C08_writer_history_independent.
+Theorem C08_sequence_reloads_as_alone : forall A name (ser : A -> list record) (deser : reader A) (objs : list A),
+  map (fun f => nf_read name deser (lex f)) (map (file name ser) objs) = map (reload name ser deser) objs.
+Proof. intros. rewrite map_map. reflexivity. Qed.
+Example C08_nonvacuous_sequence :
+  let a := {| db_nech := 1; db_names := [W "z"]; db_locs := [Some (1%nat, 0)]; db_rows := [[Some 1%Q]] |} in
+  let b := {| db_nech := 1; db_names := [W "z"]; db_locs := [Some (1%nat, 0)]; db_rows := [[Some 7%Q]] |} in
+  map (file "Db" ser_Db) [a; b; a] = [file "Db" ser_Db a; file "Db" ser_Db b; file "Db" ser_Db a] /\
+  file "Db" ser_Db a <> file "Db" ser_Db b.
+Proof. split; [reflexivity|]. vm_compute. discriminate. Qed.
